@@ -5,8 +5,10 @@
    interprets abstract commands, not bytes.  No proofs here.
 
    Points on which real terminals differ are outside the compared domain (the oracle stops judging
-   there): LF / RI while the last-column flag is set, CUU / CUD across a margin of a partial
-   scrolling region, the rendition of erased cells (their rendition is [None] = unspecified). *)
+   there): LF / RI / HT while the last-column flag is set, CUU / CUD across a margin of a partial
+   scrolling region, the rendition of erased cells (their rendition is [None] = unspecified).
+   Colours: [Some n] with n < 256 is palette index n (30-37 / 40-47 give 0-7, 38;5;n / 48;5;n give n),
+   [Some (256 + rgb)] is the direct colour of 38;2;r;g;b / 48;2;r;g;b. *)
 From Coq Require Import ZArith List Bool.
 Import ListNotations.
 From Urwid Require Import PyBase.
@@ -22,7 +24,8 @@ Inductive cmd :=
   | CIl (n : Z) | CDl (n : Z)        (* CSI n L CR, CSI n M CR  (followed by CR: VT102 homes the column, others do not) *)
   | CStbm (t b : Z)                  (* CSI t ; b r *)
   | CSgr (l : list Z)                (* CSI l m *)
-  | CDsr (n : Z).                    (* CSI n n : status (5) / cursor position (6) query; the screen is unchanged *)
+  | CDsr (n : Z)                     (* CSI n n : status (5) / cursor position (6) query; the screen is unchanged *)
+  | CHt.                             (* HT: to the next tab stop (every 8 columns), nothing is written *)
 
 Record rattr := mkRA { r_fg : oz; r_bg : oz; r_bold : bool; r_ul : bool; r_blink : bool; r_rev : bool }.
 Definition rcell := (Z * option rattr)%type.          (* rendition None = erased cell, unspecified *)
@@ -70,24 +73,43 @@ Definition erase_cells (v : vt) (y a b : Z) : vt :=          (* columns a .. b-1
 Definition erase_rows (v : vt) (a b : Z) : vt :=             (* rows a .. b-1 *)
   with_g v (takez a (v_g v) ++ blank_rows (v_w v) (b - a) ++ dropz b (v_g v)).
 
+(* one SGR parameter other than the 38 / 48 introducers *)
+Definition sgr1 (n : Z) (a : rattr) : rattr :=
+  let '(mkRA fg bg bo ul bl rv) := a in
+  if n <=? 0 then ra0
+  else if n =? 1 then mkRA fg bg true ul bl rv
+  else if n =? 4 then mkRA fg bg bo true bl rv
+  else if n =? 5 then mkRA fg bg bo ul true rv
+  else if n =? 7 then mkRA fg bg bo ul bl true
+  else if n =? 24 then mkRA fg bg bo false bl rv
+  else if n =? 25 then mkRA fg bg bo ul false rv
+  else if n =? 27 then mkRA fg bg bo ul bl false
+  else if (30 <=? n) && (n <=? 37) then mkRA (Some (n - 30)) bg bo ul bl rv
+  else if n =? 39 then mkRA None bg bo ul bl rv
+  else if (40 <=? n) && (n <=? 47) then mkRA fg (Some (n - 40)) bo ul bl rv
+  else if n =? 49 then mkRA fg None bo ul bl rv
+  else a.
+Definition set_colour (n c : Z) (a : rattr) : rattr :=
+  let '(mkRA fg bg bo ul bl rv) := a in
+  if n =? 38 then mkRA (Some c) bg bo ul bl rv else mkRA fg (Some c) bo ul bl rv.
 Fixpoint sgr (l : list Z) (a : rattr) : rattr :=
   match l with
   | [] => a
   | n :: r =>
-      let '(mkRA fg bg bo ul bl rv) := a in
-      sgr r (if n <=? 0 then ra0
-             else if n =? 1 then mkRA fg bg true ul bl rv
-             else if n =? 4 then mkRA fg bg bo true bl rv
-             else if n =? 5 then mkRA fg bg bo ul true rv
-             else if n =? 7 then mkRA fg bg bo ul bl true
-             else if n =? 24 then mkRA fg bg bo false bl rv
-             else if n =? 25 then mkRA fg bg bo ul false rv
-             else if n =? 27 then mkRA fg bg bo ul bl false
-             else if (30 <=? n) && (n <=? 37) then mkRA (Some (n - 30)) bg bo ul bl rv
-             else if n =? 39 then mkRA None bg bo ul bl rv
-             else if (40 <=? n) && (n <=? 47) then mkRA fg (Some (n - 40)) bo ul bl rv
-             else if n =? 49 then mkRA fg None bo ul bl rv
-             else a)
+      if (n =? 38) || (n =? 48) then
+        match r with
+        | b :: c :: r' =>
+            if b =? 5 then sgr r' (set_colour n c a)                                  (* 38 ; 5 ; index *)
+            else
+              match r' with
+              | cg :: cb :: r'' =>
+                  if b =? 2 then sgr r'' (set_colour n (256 + (c * 65536 + cg * 256 + cb)) a)     (* 38 ; 2 ; r ; g ; b *)
+                  else sgr r a
+              | _ => sgr r a
+              end
+        | _ => sgr r a
+        end
+      else sgr r (sgr1 n a)
   end.
 
 Definition exec (v : vt) (c : cmd) : vt :=
@@ -151,6 +173,7 @@ Definition exec (v : vt) (c : cmd) : vt :=
       mkVT w h (v_g v) x y (v_pend v) (v_top v) (v_bot v) (sgr (match l with [] => [0] | _ => l end) (v_attr v))
            (v_sb v) (v_sbknown v)
   | CDsr _ => v
+  | CHt => with_xy v (Z.min (w - 1) ((x / 8 + 1) * 8)) y false
   end.
 
 Definition run_ref (v : vt) (cs : list cmd) : vt := fold_left exec cs v.
@@ -159,7 +182,7 @@ Definition run_ref (v : vt) (cs : list cmd) : vt := fold_left exec cs v.
 Definition ambiguous (v : vt) (c : cmd) : bool :=
   let partial := negb ((v_top v =? 0) && (v_bot v =? v_h v - 1)) in
   match c with
-  | CLf | CRi => v_pend v
+  | CLf | CRi | CHt => v_pend v
   | CCuu n => partial && (v_top v <=? v_y v) && (v_y v - one n <? v_top v)
   | CCud n => partial && (v_y v <=? v_bot v) && (v_bot v <? v_y v + one n)
   | _ => false
